@@ -555,6 +555,9 @@ func (k *Kernel) addProposedHeader(ctx context.Context, s *kState, ph tmconsensu
 		}
 
 		if mergedAny {
+			// The committing view gained precommit signatures, so its vote summary is out of date.
+			backfillVRV.VoteSummary.SetPrecommitPowers(backfillVRV.ValidatorSet.Validators, backfillVRV.PrecommitProofs)
+
 			// We've updated the previous precommits, so the round store needs updated.
 			if err := k.rStore.OverwriteRoundPrecommitProofs(
 				ctx,
